@@ -16,7 +16,7 @@ from common import Ctx
 TRUSTED = [
     "Lean 4.33 kernel; axioms ⊆ {propext, Classical.choice, Quot.sound}",
     "harness/mockcore: scripted digitalRead/analogRead/pulseIn, virtual millis() advanced by delay() and scripted drift; host g++",
-    "millis() wrap-around at 2^32 ms and float32 rounding of the distance are outside the theorems (Nat clock, exact arithmetic)",
+    "float32 rounding of the distance is outside the theorems (exact arithmetic); the counter model is run with W = 2^64 (host unsigned long), the board's W is 2^32 (theorems: every W)",
     "`each pot.read() is one analogRead` is decided on the emitted code by the trace monitor, not by a Lean theorem",
 ]
 
@@ -177,14 +177,17 @@ def run(ctx: Ctx) -> int:
             ctx.count("ultra:run-across-counter-wrap")
 
     reqs = []
-    for kind, j, src, passes, inputs in runs:
+    for ridx, (kind, j, src, passes, inputs) in enumerate(runs):
         if kind == "button":
             in_loop, nreads, _, sig = j
             in_loop = False      # placement only: since fix 5cf46d6 a button declared in the loop body is sampled in setup() like any other
             reqs.append(f"fwbutton|{'-' if in_loop else sig[0]}|" + " ".join(map(str, sig if in_loop else sig[1:])))
         elif kind == "ultra":
             prog, passes, echoes, drifts = j
-            reqs.append("fwultra|" + " ".join(map(str, echoes)) + "|" + " ".join(map(str, drifts)) + "|" + ";".join(prog * passes))
+            if STARTS.get(ridx):      # across the wrap: the counter model (W = 2^64, the host compiler's unsigned long), Props.C15.ultra_measure_across_wrap
+                reqs.append(f"fwultraW|{2 ** 64}|{STARTS[ridx]}|" + " ".join(map(str, echoes)) + "|" + " ".join(map(str, drifts)) + "|" + ";".join(prog * passes))
+            else:
+                reqs.append("fwultra|" + " ".join(map(str, echoes)) + "|" + " ".join(map(str, drifts)) + "|" + ";".join(prog * passes))
         else:
             reqs.append("fwbutton|0|0")
     model = ctx.lean.drive(reqs)
@@ -274,7 +277,7 @@ def run(ctx: Ctx) -> int:
                     cur = None
             impl = "|".join(calls)
             ctx.case(req, nontrivial=any(echoes), sample={"script": src, "inputs": inputs, "model": m[:200]} if len(ctx.cov["samples"]) < 4 else None)
-            if impl != m and "\nT " not in inputs:      # (runs across the counter wrap: the model's "stamp 0 = never triggered" only holds for a clock that starts at 0)
+            if impl != m:
                 ctx.tie_diff("tie S_c ultrasonic (Fw.Ultra vs compiled helper)", {**replay, "request": req}, m, impl)
             # monitors on the raw trace
             last_stamp, last_good, pulses_in_call, pend = 0, None, 0, None
